@@ -142,6 +142,14 @@ table GDEF {
   Attach a 1;
   Attach d 2 3;
 } GDEF;
+# two value-identical lookups (and two identical single-positioning lookups) under different
+# features: each of them has to be reordered, not just the first one met
+lookup K1 { pos a b -11; pos b a -21; pos d c 6; } K1;
+lookup K2 { pos a b -11; pos b a -21; pos d c 6; } K2;
+lookup S1 { pos c <7 0 8 0>; pos a <1 0 2 0>; } S1;
+lookup S2 { pos c <7 0 8 0>; pos a <1 0 2 0>; } S2;
+feature dist { lookup K1; lookup S1; } dist;
+feature abvm { lookup K2; lookup S2; } abvm;
 feature liga { sub f i by f_i; sub a b by e; } liga;
 feature salt { sub a from [b c d]; sub e by b; sub f_i by f i; } salt;
 feature kern {
